@@ -28,4 +28,17 @@ ExcsS   == {V("e2")}
 CbS     == {"pass", "rec"}
 SuccS   == {"eqOne"}
 FailS   == {"always"}
+\* no pause / chain
+NoInner == {}
+\* pause + chained inner Deferreds: small alphabets, "fired but no result available yet"
+ValuesP == {V("one")}
+ExcsP   == {V("e1")}
+CbP     == {"pass", "chain"}
+CbAll   == {"pass", "trans", "rec", "chain"}
+CbPT    == {"pass", "rec", "chain"}
+SuccP   == {"always"}
+SuccPT  == {"always", "eqOne"}
+FailP   == {"always"}
+InnerVP == {V("two")}
+InnerEP == {V("e2")}
 =============================================================================
